@@ -482,3 +482,5 @@ M('C19', 'shortcut continue skips the summed-index union', 'expression_v2.py',
   "        for iterm, (negate, s_term, (term, term_shape, term_indices, term_summed_indices)) in enumerate(unaligned[1:], 2):\n            if term_indices == indices and term_shape == shape:\n                aligned.append((negate, term))\n                continue\n            if term_indices != indices:", rule='R19.2')
 M('C02', 'TakeDiag fusion compares a label with a position', 'evaluable.py', "func.out_idx[axis] if i == func.out_idx[rmaxis] else i", "func.out_idx[axis] if i == rmaxis else i", rule='R02.10')
 M('C02', 'Sum fusion removes the label at the wrong place', 'evaluable.py', "            return transpose(Einsum(func.args, func.args_idx, func.out_idx[:rmaxis] + func.out_idx[rmaxis+1:]), axes)\n\n    def _sum(self, axis):", "            return transpose(Einsum(func.args, func.args_idx, func.out_idx[:rmaxis] + func.out_idx[rmaxis+1:]), axes)  # unchanged\n\n    def _sum(self, axis):", expect='silent')
+M('C09', 'zip weights looked up at the zipped element index', 'sample.py', "        weights = self._samples[0].get_evaluable_weights(ielem0)", "        weights = self._samples[0].get_evaluable_weights(ielem)", rule='R09.1')
+M('C09', 'transformed points use the signed determinant', 'points.py', "self.points.weights * abs(float(self.trans.det))", "self.points.weights * float(self.trans.det)", rule='R09.4')
